@@ -6,7 +6,6 @@ package simnet
 
 import (
 	"context"
-	"bytes"
 	"crypto/sha256"
 	"encoding/hex"
 	"errors"
@@ -16,6 +15,7 @@ import (
 	"net"
 	"net/http"
 	"os"
+	"strconv"
 	"sync"
 	"syscall"
 
@@ -165,19 +165,32 @@ func (t *Transport) RoundTrip(req *http.Request) (*http.Response, error) {
 		if r.err != nil {
 			return nil, r.err
 		}
-		var rd io.Reader = bytes.NewReader(r.body)
+		// the answer arrives the way a socket delivers it: in pieces whose sizes are a function of the
+		// answer itself (no draw), the first one short; Content-Length is announced for two answers in
+		// three, as net/http does for answers that are not chunked
+		h := fnv.New32a()
+		h.Write(r.body)
+		hv := int(h.Sum32() & 0x7fffffff)
+		rd := &Body{Data: r.body, Chunks: []int{1 + hv%23, 1 + (hv>>5)%301, 1 + (hv>>11)%4096}, FailAt: -1}
 		if r.readErrAt >= 0 {
 			at := r.readErrAt
 			if at > len(r.body) {
 				at = len(r.body)
 			}
-			rd = io.MultiReader(bytes.NewReader(r.body[:at]), errReader{})
+			rd.FailAt, rd.FailErr = at, ErrConn
+		}
+		hdr := http.Header{"Content-Type": []string{"application/json"}}
+		cl := int64(-1)
+		if m.Seq%3 != 0 {
+			cl = int64(len(r.body))
+			hdr.Set("Content-Length", strconv.Itoa(len(r.body)))
 		}
 		return &http.Response{
-			StatusCode: r.status,
-			Status:     fmt.Sprintf("%d %s", r.status, http.StatusText(r.status)),
-			Header:     http.Header{"Content-Type": []string{"application/json"}},
-			Body:       io.NopCloser(rd),
+			StatusCode:    r.status,
+			Status:        fmt.Sprintf("%d %s", r.status, http.StatusText(r.status)),
+			Header:        hdr,
+			ContentLength: cl,
+			Body:          rd,
 			Request:    req,
 			Proto:      "HTTP/1.1", ProtoMajor: 1, ProtoMinor: 1,
 		}, nil
